@@ -34,6 +34,11 @@ func checkC05(c *Check) {
 	feed := p.Fn(pFrag, "(*Defragger).Feed")
 	fFrags := p.Field(pFrag, "Defragger", "frags")
 	fPkt := p.Field(pFrag, "Defragger", "pktID")
+	if fPkt == nil && feed != nil {
+		// the identity of the message being reassembled may be kept in another form (a combined key):
+		// it is the Defragger field that Feed compares with a value computed from the message's PacketID
+		fPkt = c05IdentityField(p, feed)
+	}
 	fCount := p.Field(pFrag, "Defragger", "count")
 	fSize := p.Field(pFrag, "Defragger", "size")
 	if fragFn == nil || feed == nil || fFrags == nil || fPkt == nil || fCount == nil || fSize == nil {
@@ -274,7 +279,7 @@ func checkC05(c *Check) {
 			if !ok || !((b.Op == token.EQL && pol) || (b.Op == token.NEQ && !pol)) {
 				return false
 			}
-			return (isLoadOfField(b.X, fPkt) && fieldNameOfLoad(b.Y) == "PacketID") || (isLoadOfField(b.Y, fPkt) && fieldNameOfLoad(b.X) == "PacketID")
+			return (isLoadOfField(b.X, fPkt) && c05CarriesPacketID(b.Y)) || (isLoadOfField(b.Y, fPkt) && c05CarriesPacketID(b.X))
 		})
 		c.Req(samePkt, "C05.R4:accumulate:same-packet", r4, pos, "a fragment is accumulated without the `packet id equals the current one` edge: fragments of different messages are mixed")
 		sameCount := guardedByIP(p, fr.Instr, 0, func(cond ssa.Value, pol bool) bool {
@@ -755,6 +760,95 @@ func c05PacketIDStored(p *Prog, at ssa.Instruction, msg ssa.Value, depth int) bo
 		}
 	}
 	return true
+}
+
+// c05CarriesPacketID: v is the message's PacketID, or a value that embeds all 16 bits of it
+// (widening conversions, shifts performed in a type wide enough to keep them, OR / ADD with other
+// fields). A shift or mask that can drop bits of the id makes different messages compare equal.
+func c05CarriesPacketID(v ssa.Value) bool {
+	var walk func(v ssa.Value, shl int64, depth int) bool
+	width := func(t types.Type) int64 {
+		if b, ok := t.Underlying().(*types.Basic); ok {
+			switch b.Kind() {
+			case types.Uint8, types.Int8:
+				return 8
+			case types.Uint16, types.Int16:
+				return 16
+			case types.Uint32, types.Int32:
+				return 32
+			default:
+				return 64
+			}
+		}
+		return 0
+	}
+	walk = func(v ssa.Value, shl int64, depth int) bool {
+		if depth > 6 {
+			return false
+		}
+		v = resolve(v)
+		if fieldNameOfLoad(v) == "PacketID" {
+			return true
+		}
+		switch x := v.(type) {
+		case *ssa.Convert:
+			if width(x.Type()) < 16+shl {
+				return false
+			}
+			return walk(x.X, shl, depth+1)
+		case *ssa.BinOp:
+			switch x.Op {
+			case token.OR, token.ADD, token.XOR:
+				return walk(x.X, shl, depth+1) || walk(x.Y, shl, depth+1)
+			case token.SHL:
+				k, ok := constInt(x.Y)
+				if !ok || width(x.Type()) < 16+shl+k {
+					return false // the shift is carried out in a type that drops id bits
+				}
+				return walk(x.X, shl+k, depth+1)
+			}
+		}
+		return false
+	}
+	return walk(v, 0, 0)
+}
+
+// c05IdentityField: the Defragger field compared (==, !=) in the reassembler with a value computed
+// from the incoming message's PacketID.
+func c05IdentityField(p *Prog, feed *ssa.Function) *types.Var {
+	var out *types.Var
+	grp := helperGroup(p, feed, func(f *ssa.Function) bool { return fnPkg(f) == fnPkg(feed) })
+	dependsOnPID := func(v ssa.Value) bool {
+		for d := range deps(v, depOpts{}) {
+			if fieldNameOfLoad(d) == "PacketID" {
+				return true
+			}
+		}
+		return false
+	}
+	allInstrsOf(grp, func(in ssa.Instruction) {
+		b, ok := in.(*ssa.BinOp)
+		if !ok || (b.Op != token.EQL && b.Op != token.NEQ) {
+			return
+		}
+		for _, pr := range [][2]ssa.Value{{b.X, b.Y}, {b.Y, b.X}} {
+			u, ok := resolve(pr[0]).(*ssa.UnOp)
+			if !ok || u.Op != token.MUL {
+				continue
+			}
+			fa, ok := u.X.(*ssa.FieldAddr)
+			if !ok {
+				continue
+			}
+			if n := namedOf(fa.X.Type()); n == nil || n.Obj().Name() != "Defragger" {
+				continue
+			}
+			if dependsOnPID(pr[1]) {
+				out = structField(fa.X.Type(), fa.Field)
+			}
+		}
+	})
+	return out
 }
 
 func isLoadOfFieldC05(lp *linProver, v ssa.Value, f *types.Var) bool {
